@@ -225,6 +225,15 @@ func registerIntrinsics(e *Engine) {
 		return replaceAll(fr.i.ps, a[0], mustStr(a[1], "ReplaceAll old"), a[2])
 	}
 	in["strings.Contains"] = func(fr *frame, a []value) value {
+		if _, ok := a[1].(sstr); ok {
+			// symbolic needle: a disjunction over all positions, no fork
+			hay, nd := strTerms(a[0]), strTerms(a[1])
+			var alts []*smt.Term
+			for k := 0; k+len(nd) <= len(hay); k++ {
+				alts = append(alts, strEqTerm(hay[k:k+len(nd)], nd))
+			}
+			return mkScalar(fr.i.ps, smt.Or(alts...), types.Bool)
+		}
 		return indexOf(fr.i.ps, a[0], mustStr(a[1], "Contains substr")) >= 0
 	}
 	in["strings.Index"] = func(fr *frame, a []value) value {
